@@ -26,6 +26,7 @@
 //        (1) creation:   procGen(wrapper,true,data,undefined).C(true,T,E,B,F,S,J,undefined,undefined)
 //        (2) binding map: every updater in the returned B[field][i] is called with (data, elementUpdated, updateText)
 //        (3) update:     procGen(wrapper,false,data,true).C(false, ...) walking the tree built in (1)
+//        (4) bmap1 cases: a fresh creation, then ONE field changed and only that field's updaters B[field][i] called with the changed data
 //      result: { id, parsed, parseError, envs, compared, refThrows, mismatch:null|{phase,sel,env,got,want}, flatError }
 //  { id, kind:"parse", artefacts:[{name, code, form}] }
 //      form "expr" : the artefact is an expression - checked as a script `code`, as `var g=code;` and the way the runtime
@@ -305,6 +306,7 @@ function runEval(c) {
       counter = 0
       try { wants.push(f(data, $get, $call, $str, $each)) } catch (e) { refOk = false; break }
     }
+    const wants0 = wants
     if (!refOk) { res.refThrows += 1; continue }
     // guards: expressions that must be dense arrays, else the environment belongs to a KNOWN class and is skipped
     let guarded = false
@@ -328,7 +330,8 @@ function runEval(c) {
     let phase = 'creation'
     const envShown = show(data) // before the generated code runs: broken code may mutate the data (`++D.a`)
     const fail = (sel, got, want) => { res.mismatch = { phase, sel, tuple, env: envShown, got, want } }
-    const compare = (root) => {
+    const compare = (root, w) => {
+      const wants = w === undefined ? wants0 : w
       for (let i = 0; i < c.checks.length; i += 1) {
         const sel = c.checks[i][0]
         const got = observe(root, sel, [])
@@ -361,6 +364,44 @@ function runEval(c) {
       const upd = procGen(wrapper, false, data, true)
       update(root, upd.C, undefined)
       if (!compare(root)) return res
+      // (4) C07, only for cases that ask for it: ONE top-level field changes; the runtime then calls exactly the updaters
+      //     offered under that field (ProcGenWrapper.bindingMapUpdate) and does NOT walk the tree.  After them every
+      //     observation must be what a fresh evaluation on the changed data gives.  A field without an entry in B falls
+      //     back to the tree update (phase 3) and is skipped here.
+      if (c.bmap1 && inst.B) {
+        for (let k = 0; k < c.vars.length; k += 1) {
+          const f = c.vars[k]
+          if (!Array.isArray(inst.B[f])) continue
+          let altIndex = (tuple[k] + 1) % pool.length
+          let alt = pool[altIndex]
+          if (c.alts) { if (!(f in c.alts)) continue; alt = decode(c.alts[f]); altIndex = -1 }
+          const data2 = Object.assign({}, data)
+          data2[f] = alt
+          const wants2 = []
+          let ok2 = true
+          for (const rf of refs) {
+            counter = 0
+            try { wants2.push(rf(data2, $get, $call, $str, $each)) } catch (e) { ok2 = false; break }
+          }
+          if (!ok2) continue
+          for (const g of guards) {
+            counter = 0
+            try { if (!isDenseArray(g(data2, $get, $call, $str, $each))) ok2 = false } catch (e) { ok2 = false }
+          }
+          if (!ok2) continue
+          phase = 'single-field binding-map update of ' + JSON.stringify(f) + ' to ' + show(alt)
+          counter = 0
+          const inst2 = procGen(wrapper, true, data, undefined)
+          const root2 = create(inst2.C, undefined)
+          const list = inst2.B && inst2.B[f]
+          if (!Array.isArray(list)) continue
+          for (let i = 0; i < list.length; i += 1) {
+            counter = 0
+            if (typeof list[i] === 'function') list[i](data2, () => {}, (node, text) => { node.text = text })
+          }
+          if (!compare(root2, wants2)) { res.mismatch.altField = f; res.mismatch.altIndex = altIndex; return res }
+        }
+      }
     } catch (e) {
       fail('*', 'exception: ' + String(e), c.checks.map((ch, i) => show(wants[i])).join(' ; '))
       return res
